@@ -472,7 +472,7 @@ def py_kinds(src):
                 out.append((qual + s.name, kind, pk))
                 walk(s.body, 'func', qual + s.name + '.')
             elif isinstance(s, ast.ClassDef):
-                out.append((qual + s.name, 'Class', []))
+                out.append((qual + s.name, 'Enum' if 'Enum' in [dotted(b) for b in s.bases] else 'Class', []))
                 walk(s.body, 'class', qual + s.name + '.')
             else:
                 for f in ('body', 'orelse', 'handlers', 'finalbody'):
@@ -496,7 +496,7 @@ def node_kinds(entrypoint):
                 out.append((qual + s.symbol.tokens, c, [cname(p.symbol) for p in s.parameters]))
                 walk(s.statements, qual + s.symbol.tokens + '.')
             elif c in ('Class', 'Enum'):
-                out.append((qual + s.symbol.tokens, 'Class', []))
+                out.append((qual + s.symbol.tokens, c, []))
                 walk(s.statements, qual + s.symbol.tokens + '.')
             elif c == 'If':
                 walk(s.statements, qual)
